@@ -26,6 +26,17 @@ E-grid (complete products, no sampling) over
             VibronicState objects made {outside, inside} the context.  coupling() returns its
             value in the current energy units; reference J[internal]/factor(unit) x overlaps.
 
+* history-* : HISTORIES of parameter settings on the same Mode / Molecule objects before the
+            build.  One setting = (route set_HR | set_shift (both signs) | set_all) x
+            Huang-Rhys factor (0 included) x (levels in g, levels in e) [set_nmax]; every mode
+            slot independently takes ALL ordered pairs (and triples) of settings, repetitions
+            included; x stage at which the final setting is made {on the fresh molecule,
+            after Molecule.get_Hamiltonian was retrieved, when the molecule already belongs
+            to an Aggregate, after the Aggregate was built with the earlier settings}.
+            Oracle: the getters report the value set last and everything built afterwards
+            (state counts, FCf, Hamiltonian, dipoles, Molecule Hamiltonian) is that of fresh
+            objects given the last values directly (the same reference as everywhere).
+
 Oracles (mc/refmodels/fc_laguerre.py, closed Laguerre formula, no diagonalisation, no
 quantarhei): see the clause list in run().
 
@@ -72,7 +83,9 @@ def _spec(case):
             w = float(sl["w"]) if "w" in sl else W[k]
             modes.append({"w": w, "d": [d0, _shift(sl["S"], sl["sg"])],
                           "n": [int(sl["n0"]), int(sl["n1"])],
-                          "S": float(sl["S"]), "sg": int(sl["sg"])})
+                          "S": float(sl["S"]), "sg": int(sl["sg"]),
+                          "n0": int(sl["n0"]), "n1": int(sl["n1"]),
+                          "r": sl.get("r"), "hist": list(sl.get("hist") or [])})
             k += 1
         mols.append({"E": [0.0, E_EL[i]], "dip": DIPS[i], "modes": modes})
     n = len(nm)
@@ -83,32 +96,93 @@ def _spec(case):
     return {"mols": mols, "J": J}
 
 
-def _molecule(qr, mol, viol, dev):
+# routes by which one SETTING of a mode's excited-state parameters is made
+#   "HR"    : set_nmax(0,.), set_nmax(1,.), set_HR(1, S)
+#   "shift" : set_nmax(0,.), set_nmax(1,.), set_shift(1, sg*sqrt(2S))
+#   "all"   : set_nmax(0,.), set_all(1, [omega, sg*sqrt(2S), n1])
+# default (cases without the key "r"): "HR" for positive shifts, "shift" for negative ones
+STAGES = ["fresh", "after-mol-H", "in-aggregate", "after-build"]
+
+
+def _apply_setting(mode, st, w, viol, dev, later):
+    """One setting st = {S, sg, n0, n1[, r]} on a Mode object, followed by reading the values
+    back: the getters report the value set LAST (later=True: the mode carried other values
+    from an earlier setting)."""
+    S, sg = float(st["S"]), int(st["sg"])
+    route = st.get("r") or ("HR" if sg > 0 else "shift")
+    d = _shift(S, sg)
+    mode.set_nmax(0, int(st["n0"]))
+    if route == "all":
+        mode.set_all(1, [w, d, int(st["n1"])])
+    else:
+        mode.set_nmax(1, int(st["n1"]))
+        if route == "HR":
+            if sg <= 0:
+                raise isolation.HarnessError("route HR needs a positive sign")
+            mode.set_HR(1, S)                        # the Huang-Rhys route
+        else:
+            mode.set_shift(1, d)                     # signed displacement
+    # Huang-Rhys factor <-> shift
+    hr = mode.get_HR(1)
+    err = abs(hr - S)
+    dev["hr"] = max(dev.get("hr", 0.0), err)
+    if err > TOL * max(1.0, S):
+        if later:
+            viol.append(("history/get_HR-is-not-the-value-set-last",
+                         "after earlier settings on the same Mode, %s for Huang-Rhys factor "
+                         "%g leaves get_HR(1) = %g (shift %g)"
+                         % ({"HR": "set_HR", "shift": "set_shift", "all": "set_all"}[route],
+                            S, hr, mode.get_shift(1)), None))
+        else:
+            viol.append(("hr/set-get-roundtrip",
+                         "Huang-Rhys factor %g comes back as %g (shift %g)"
+                         % (S, hr, mode.get_shift(1)), None))
+    if sg > 0 and abs(mode.get_shift(1) ** 2 / 2.0 - S) > TOL * max(1.0, S):
+        viol.append(("hr/shift-squared-over-2" if not later
+                     else "history/shift-squared-over-2-is-not-the-value-set-last",
+                     "set_HR(%g) gives shift %g, shift^2/2 = %g"
+                     % (S, mode.get_shift(1), mode.get_shift(1) ** 2 / 2.0), None))
+    if later:
+        got = (mode.get_nmax(0), mode.get_nmax(1))
+        if got != (int(st["n0"]), int(st["n1"])):
+            viol.append(("history/get_nmax-is-not-the-value-set-last",
+                         "after earlier settings on the same Mode, level counts (%d, %d) come "
+                         "back as %s" % (st["n0"], st["n1"], got), None))
+
+
+def _molecule(qr, mol, viol, dev, stage="fresh", pending=None):
+    """Molecule of the spec.  Every mode first receives the EARLIER settings of its history
+    md["hist"] (if any) and then the final setting md.  stage "after-mol-H": the molecule's
+    Hamiltonian is retrieved between the earlier settings and the final ones; pending (a
+    list): the final settings are not applied but appended to it as callables (the caller
+    applies them later, e.g. when the molecule already belongs to an Aggregate)."""
     m = qr.Molecule(elenergies=list(mol["E"]))
     m.set_dipole(0, 1, list(mol["dip"]))
+    two_phase = pending is not None or any(md.get("hist") for md in mol["modes"])
+
+    def final(mode, md, later):
+        _apply_setting(mode, md, md["w"], viol, dev, later)
+        if md["d"][0] != 0.0:
+            mode.set_shift(0, md["d"][0])
+
+    todo = []
     for md in mol["modes"]:
         mode = qr.Mode(frequency=md["w"])
         m.add_Mode(mode)
-        mode.set_nmax(0, md["n"][0])
-        mode.set_nmax(1, md["n"][1])
-        if md["sg"] > 0:
-            mode.set_HR(1, md["S"])                  # the Huang-Rhys route
+        if not two_phase:
+            final(mode, md, False)
+            continue
+        for q, st in enumerate(md.get("hist") or []):
+            _apply_setting(mode, st, md["w"], viol, dev, q > 0)
+        todo.append((mode, md, bool(md.get("hist"))))
+    if two_phase and stage == "after-mol-H":
+        m.get_Hamiltonian()
+        isolation.reset_units()
+    for (mode, md, later) in todo:
+        if pending is None:
+            final(mode, md, later)
         else:
-            mode.set_shift(1, md["d"][1])            # negative displacement
-        if md["d"][0] != 0.0:
-            mode.set_shift(0, md["d"][0])
-        # Huang-Rhys factor <-> shift
-        hr = mode.get_HR(1)
-        err = abs(hr - md["S"])
-        dev["hr"] = max(dev.get("hr", 0.0), err)
-        if err > TOL * max(1.0, md["S"]):
-            viol.append(("hr/set-get-roundtrip",
-                         "Huang-Rhys factor %g comes back as %g (shift %g)"
-                         % (md["S"], hr, mode.get_shift(1)), None))
-        if md["sg"] > 0 and abs(mode.get_shift(1) ** 2 / 2.0 - md["S"]) > TOL * max(1.0, md["S"]):
-            viol.append(("hr/shift-squared-over-2",
-                         "set_HR(%g) gives shift %g, shift^2/2 = %g"
-                         % (md["S"], mode.get_shift(1), mode.get_shift(1) ** 2 / 2.0), None))
+            pending.append(lambda mode=mode, md=md, later=later: final(mode, md, later))
     return m
 
 
@@ -164,7 +238,8 @@ def eval_shiftop(case):
         # aggregate code (real shifts only)
         sg = int(case["sg"])
         mol = {"E": [0.0, 1.0], "dip": DIPS[0],
-               "modes": [{"w": 0.05, "d": [0.0, _shift(S, sg)], "n": [2, 2], "S": S, "sg": sg}]}
+               "modes": [{"w": 0.05, "d": [0.0, _shift(S, sg)], "n": [2, 2], "S": S, "sg": sg,
+                          "n0": 2, "n1": 2}]}
         m = _molecule(qr, mol, viol, dev)
         d_lib = m.get_Mode(0).get_shift(1)           # what the aggregate code would use
         d_ref = _shift(S, sg)
@@ -289,12 +364,26 @@ def eval_agg(case):
     # build option fem_full: the Hamiltonian also carries the couplings between bands that
     # differ by two excitations (ground <-> two-exciton ...)
     fem = bool(case.get("fem", False))
-    mols = [_molecule(qr, mol, viol, dev) for mol in spec["mols"]]
+    # HISTORY of parameter settings on the same Mode/Molecule objects: stage = where the
+    # final setting of every mode is made (the earlier ones are made on the fresh molecule)
+    stage = case.get("stage", "fresh")
+    if stage not in STAGES:
+        raise isolation.HarnessError("unknown stage %r" % (stage,))
+    pending = [] if stage in ("in-aggregate", "after-build") else None
+    mols = [_molecule(qr, mol, viol, dev, stage, pending) for mol in spec["mols"]]
     agg = qr.Aggregate(molecules=mols)
     for i in range(nmol):
         for j in range(i + 1, nmol):
             if spec["J"][i][j] != 0.0:
                 agg.set_resonance_coupling(i, j, spec["J"][i][j])
+    if stage == "after-build":
+        # the aggregate is built with the earlier settings, then the final ones are made
+        try:
+            agg.build(mult=mult, fem_full=fem)
+        finally:
+            isolation.reset_units()
+    for f in (pending or []):
+        f()
     if case.get("history") == "second-build":
         # HISTORY: the same Aggregate object was built before with other displacements; the
         # displacements are then set to the values of this case and build() is called again
@@ -491,7 +580,7 @@ def eval_agg(case):
     info = {"dev": dev, "sigma": sigma, "coupling_calls": ncalls}
     molout = None
     if nmol == 1:
-        molout = _check_molecule(qr, spec, viol, dev)
+        molout = _check_molecule(qr, spec, viol, dev, stage)
     offsum = float(numpy.sum(numpy.abs(Hl * offd)))
     out = ["agg", counts, sigma, round(float(numpy.sum(numpy.abs(Fl))), 7),
            round(offsum, 9), round(float(numpy.sum(numpy.abs(Dl))), 7),
@@ -646,12 +735,17 @@ def _check_molecule_elements(m, mol, data, scale, viol, dev):
                      {"err": err, "states": [list(la), list(lb)]}))
 
 
-def _check_molecule(qr, spec, viol, dev):
+def _check_molecule(qr, spec, viol, dev, stage="fresh"):
     """Molecule.get_Hamiltonian on a fresh molecule: dimension, no coupling between
-    electronic states, spectrum."""
+    electronic states, spectrum.  With a history of settings the molecule receives the same
+    history; in the stages where something was built from the earlier settings the
+    Hamiltonian is first retrieved with those and then again with recalculate=True (the
+    documented way to obtain it for changed parameters; the stored object is not claimed)."""
     mol = spec["mols"][0]
-    m = _molecule(qr, mol, [], {})
-    H = m.get_Hamiltonian()
+    seen = stage in ("after-mol-H", "after-build")
+    m = _molecule(qr, mol, [], {}, "after-mol-H" if seen else "fresh")
+    two_phase = any(md.get("hist") for md in mol["modes"])
+    H = m.get_Hamiltonian(recalculate=True) if (seen and two_phase) else m.get_Hamiltonian()
     isolation.reset_units()
     data = numpy.asarray(H.data)
     dims = [F.state_count({"mols": [mol]}, (e,)) for e in range(2)]
@@ -765,6 +859,30 @@ def _section(nm, alphabet, extra, constraint=None):
     return out
 
 
+# --------------------------------------------------------------------------
+# histories of settings on the same Mode object
+# --------------------------------------------------------------------------
+def _settings(hrs, routes, levels):
+    """alphabet of single settings: complete product (route, Huang-Rhys factor[, sign]) x
+    (levels in g, levels in e).  Route "shift" takes both signs (one value for HR = 0)."""
+    out = []
+    for r in routes:
+        for S in hrs:
+            for sg in ((1, -1) if (r == "shift" and S > 0) else (1,)):
+                for (n0, n1) in levels:
+                    out.append({"r": r, "S": S, "sg": sg, "n0": n0, "n1": n1})
+    return out
+
+
+def _histories(settings, length):
+    """ALL sequences of `length` settings from the alphabet (ordered, repetitions included):
+    the last one is the slot's final setting, the ones before are its history."""
+    seqs = [[]]
+    for _ in range(length):
+        seqs = [q + [st] for q in seqs for st in settings]
+    return [dict(q[-1], hist=[dict(st) for st in q[:-1]]) for q in seqs]
+
+
 J1, J2 = 0.02, -0.035
 FEM = [False, True]
 
@@ -819,6 +937,22 @@ def sections(tier):
         sec["coupling-call"] = (_section([1, 1], q6, {"J": [J1], "mult": [1, 2], "ctx": ctx}) +
                                 _section([2, 1], q4, {"J": [J1], "mult": [2], "ctx": ctx}) +
                                 _section([1, 1, 1], q2, {"J": [J1], "mult": [2], "ctx": ctx}))
+        # HISTORIES of settings on the same Mode objects before the build: every mode slot
+        # independently takes every ordered pair (triple) of settings of its alphabet
+        # (repetitions included); x stage at which the final setting is made
+        HRH = [0, 0.3, 0.6]
+        ROUTES = ["HR", "shift", "all"]
+        L1, L2 = [(2, 2)], [(2, 2), (1, 3)]
+        sec["history-1mol"] = (
+            _section([1], _histories(_settings(HRH, ROUTES, L2), 2), {"stage": ["fresh"]}) +
+            _section([1], _histories(_settings(HRH, ROUTES, L1), 2), {"stage": STAGES[1:]}) +
+            _section([1], _histories(_settings(HRH, ["HR"], L1), 3),
+                     {"d0": [0.0, 0.3], "stage": ["fresh", "after-build"]}))
+        sec["history-1mol-2modes"] = _section([2], _histories(_settings(HRH, ["HR"], L1), 2),
+                                              {"stage": ["fresh"]})
+        sec["history-2mol"] = _section([1, 1], _histories(_settings(HRH, ["HR"], L1), 2),
+                                       {"J": [J1], "stage": ["fresh", "in-aggregate",
+                                                             "after-build"]})
     else:
         sec["shiftop"] = [{"kind": "shiftop", "S": S, "sg": sg, "N": N}
                           for N in ("default", 150)
@@ -866,6 +1000,26 @@ def sections(tier):
             _section([2, 2], t4, {"J": [J1], "mult": [2], "ctx": ctx}) +
             _section([1, 1, 1], t6, {"J": [J1], "mult": [1, 2], "ctx": ctx}) +
             _section([1, 1, 1], t4, {"J": [J1], "mult": [3], "ctx": ctx}))
+        HRH = [0, 0.3, 0.6]
+        ROUTES = ["HR", "shift", "all"]
+        L1, L2, L3 = [(2, 2)], [(2, 2), (1, 3)], [(2, 2), (1, 3), (3, 2)]
+        sec["history-1mol"] = (
+            _section([1], _histories(_settings([0, 0.3, 0.5, 0.6], ROUTES, L3), 2),
+                     {"stage": STAGES}) +
+            _section([1], _histories(_settings(HRH, ROUTES, L2), 3), {"stage": ["fresh"]}) +
+            _section([1], _histories(_settings(HRH, ROUTES, L1), 3),
+                     {"d0": [0.3], "stage": STAGES[1:]}))
+        sec["history-1mol-2modes"] = (
+            _section([2], _histories(_settings(HRH, ["HR"], L2), 2),
+                     {"stage": ["fresh", "after-mol-H"]}) +
+            _section([2], _histories(_settings(HRH, ["HR"], L1), 3), {"stage": ["fresh"]}))
+        sec["history-2mol"] = (
+            _section([1, 1], _histories(_settings(HRH, ["HR"], L2), 2),
+                     {"J": [J1], "stage": ["fresh", "in-aggregate", "after-build"]}) +
+            _section([1, 1], _histories(_settings(HRH, ["HR", "shift"], L1), 2),
+                     {"J": [J2], "mult": [2], "stage": ["fresh", "after-build"]}) +
+            _section([1, 1], _histories(_settings(HRH, ["HR"], L1), 3),
+                     {"J": [J1], "stage": ["fresh", "after-build"]}))
     return sec
 
 
@@ -886,7 +1040,11 @@ def run(run):
                 "option fem_full in {False, True}; coupling-call: slots x multiplicity x call "
                 "context {no context, energy_units(int | 1/cm | eV | THz | meV)} and inside each "
                 "case ALL ordered pairs of vibronic states x full in {default, True} x states "
-                "made {outside, inside} the context.  non-trivial = at "
+                "made {outside, inside} the context; history-*: every mode slot takes all "
+                "ordered pairs (triples) of settings (route set_HR | set_shift | set_all) x HR "
+                "(0 included) x level counts, repetitions included, x stage of the final "
+                "setting {fresh molecule, after Molecule.get_Hamiltonian, molecule already in "
+                "the Aggregate, after a build with the earlier settings}.  non-trivial = at "
                 "least one mode with a non-zero displacement between g and e and more than "
                 "one level (shiftop: HR > 0)")
     run.assumptions = [
@@ -916,6 +1074,11 @@ def run(run):
         "J[internal]/factor(unit) x product of overlaps with factors from the SI definitions; "
         "only the call is made inside the context, the aggregate is set up and built outside; "
         "pairs of purely electronic states are not claimed",
+        "histories of settings: Mode.get_HR / get_shift / get_nmax report the value set last "
+        "and a build made afterwards corresponds to the last values only (same reference as "
+        "for fresh objects); Molecule.get_Hamiltonian() stores its result by design, so "
+        "after an earlier retrieval it is requested with recalculate=True; settings are made "
+        "outside any units context (frequency passed to set_all in internal units)",
     ]
     sc = F.selfcheck()
     if not sc < 1e-12:
@@ -928,6 +1091,10 @@ def run(run):
                   "modes_per_molecule": "0..4" if run.tier == "thorough" else "0..3",
                   "shift_argument_classes": [_phase_class(ph) for ph in PHASES],
                   "mult": [1, 2, 3], "fem_full": FEM,
+                  "history": {"length": "2..3 settings per mode", "stages": STAGES,
+                              "routes": ["HR", "shift", "all"],
+                              "HR": [0, 0.3, 0.5, 0.6] if run.tier == "thorough"
+                              else [0, 0.3, 0.6]},
                   "coupling_call_contexts": sorted(set(c["ctx"] for c in secs["coupling-call"])),
                   "coupling_call_inner": {"full": ["default", True], "states_made": MADE,
                                           "pairs": "all ordered pairs of vibronic states"}}
